@@ -87,7 +87,7 @@ def halfRed : Col := ⟨128, 0, 0, 128⟩
 def blue : Col := ⟨0, 0, 255, 255⟩
 def fillOnly (c : Col) (pid : Nat) : Draw Nat :=
   { fill := .col c, stroke := .none, width := 1, cap := 0, join := .bevel, dashOff := 0, dashes := [], evenOdd := false,
-    sim := true, scale := 1, closed := true, pid := pid }
+    sim := true, scale := 1, closed := true, pid := pid, outlineEmpty := false }
 def strokeOnly (c : Col) (pid : Nat) : Draw Nat :=
   { fillOnly c pid with fill := .none, stroke := .col c }
 
@@ -102,6 +102,13 @@ is painted with its own alpha again (instance of `pdf_refines`, kept as a regres
 example :
     (pdfRun (pg0 natNum) (pdfOps natNum [fillOnly halfRed 0, strokeOnly blue 1, fillOnly halfRed 2] (pw0 natNum))).2.map alphaOf
       = [some 128, some 255, some 128] := by decide
+
+/-- the former empty-outline instance (a stroke PDF cannot express whose outline is empty): nothing is written
+and nothing is painted — no painting operator without a path (66cce0f; regression example) -/
+example :
+    (pdfRun (pg0 natNum) (pdfOps natNum [{ strokeOnly black 0 with join := .miter 2 (some 4), outlineEmpty := true }] (pw0 natNum))).2.map alphaOf = [] ∧
+    pdfOps natNum [{ strokeOnly black 0 with join := .miter 2 (some 4), outlineEmpty := true }] (pw0 natNum) = [] := by
+  constructor <;> decide
 
 /-! ### images (`pdfPageWriter.DrawImage`): `SetAlpha(1.0) q … Do Q` -/
 
